@@ -149,4 +149,48 @@ theorem checked_refines (x : Ext) (ev : Event) (hev : C03.EventWf ev) (rules : L
       (∀ nm k, err = some (nm, k) → nm ∈ (S.scan x ev rules).named) :=
   scan_refines_spec_full x ev hev rules e hw (rulesRelB_sound x ev rules e.rules h)
 
+theorem fieldsWfB_sound (source : Str) (id : Int) (fields : List (List Str × FieldValue)) (h : fieldsWfB fields = true) :
+    C03.EventWf (eventOfFields source id fields) := by
+  intro segs fv hget
+  simp only [eventOfFields] at hget
+  have hmem : (segs, fv) ∈ fields := by
+    induction fields with
+    | nil => simp at hget
+    | cons p fs ih =>
+      obtain ⟨k, v⟩ := p
+      simp only [List.lookup_cons] at hget
+      cases hb : segs == k with
+      | true =>
+        rw [hb] at hget
+        simp only [Option.some.injEq] at hget
+        have : segs = k := by simpa using hb
+        subst this; subst hget; simp
+      | false =>
+        rw [hb] at hget
+        simp only [fieldsWfB, List.all_cons, Bool.and_eq_true] at h
+        exact List.mem_cons_of_mem _ (ih (by simpa [fieldsWfB] using h.2) hget)
+  simp only [fieldsWfB, List.all_eq_true] at h
+  have := h (segs, fv) hmem
+  cases fv with
+  | num n =>
+    cases n with
+    | int v => simp only [fvWfB, numWfB, Bool.and_eq_true, decide_eq_true_eq] at this; exact this
+    | uint v => simp only [fvWfB, numWfB, decide_eq_true_eq] at this; exact this
+    | float f => trivial
+  | str s => trivial
+  | bool b => trivial
+  | some => trivial
+  | none => trivial
+
+/-- the same with every hypothesis decided: an event decoded from a field list whose numbers fit, an engine
+    the model built (well-formed by `ofCompiler_wf`), rules the checker relates -/
+theorem checked_refines_event (x : Ext) (source : Str) (id : Int) (fields : List (List Str × FieldValue))
+    (hf : fieldsWfB fields = true) (rules : List S.SRule) (e : Engine) (hw : WfEngine e)
+    (h : rulesRelB x (eventOfFields source id fields) rules e.rules = true) :
+    ∃ c sr err, Engine.scan x e (eventOfFields source id fields) = ({ e with rulesCache := c }, .done sr err) ∧
+      SrEq sr (S.scan x (eventOfFields source id fields) rules).result ∧
+      (err.isSome = true ↔ (S.scan x (eventOfFields source id fields) rules).failing ≠ []) ∧
+      (∀ nm k, err = some (nm, k) → nm ∈ (S.scan x (eventOfFields source id fields) rules).named) :=
+  checked_refines x _ (fieldsWfB_sound source id fields hf) rules e hw h
+
 end Gene.Props.Refine
